@@ -4,7 +4,7 @@
     controller goroutine (Pause, Schedule at CurrentTime()+d ..., Continue — what a
     monitor does) and EVERY scheduler oracle (goroutine interleaving). *)
 From Coq Require Import Permutation.
-From Akita Require Import Lib.Base Lib.Lts C04.Model C04.Proofs1 C04.Proofs2 C04.Proofs2b C04.Proofs3 C04.Proofs4.
+From Akita Require Import Lib.Base Lib.Lts C04.Model C04.Proofs1 C04.Proofs2 C04.Proofs2b C04.Proofs3 C04.Proofs4 C04.Proofs5 C04.Proofs6.
 Local Open Scope N_scope.
 
 (** Exactly once: at every moment scheduled = handled + live (spawned or executing
@@ -55,6 +55,39 @@ Theorem c04_secondary_round_clean : forall prog nq init script o s', (1 <= nq)%n
   e_ws s' = [] /\ Forall (fun x => e_now s' < ev_time x) (concat (e_pqs s')) /\ x_plock (e_ext s') = Some false.
 Proof. intros prog nq init script o s' H Hc. exact (par_secondary_round_clean prog nq init script H Hc o s'). Qed.
 Print Assumptions c04_secondary_round_clean.
+
+(** Link to the deterministic [rounds] function used by the tie.
+    FULL STATEMENT (not yet proved): for every interleaving without a controller, the
+    sequence of rounds of the LTS — (time, phase, set of members) — equals
+    [rounds fuel prog init], i.e. the pending multiset at the n-th round boundary is
+    the n-th iterate of [next_pending] on [init].
+    PROVED (partial): every round the engine chooses — in every reachable state, under
+    every interleaving and any well-formed controller — is the round [rounds] chooses
+    on the multiset of events pending at that moment (same time, same phase; hence
+    the members it will pop are [members (queued s)], the events of that time and
+    phase); [rounds] unfolds to exactly that choice followed by [next_pending]; and
+    [choice], [members], [rest], [next_pending] depend only on the multiset.
+    MISSING: that the pending multiset at the end of a round is
+    [next_pending (pending at its start)], which needs the channel discipline
+    "a queue of the round's kind is handed to Schedule only after it was scanned"
+    (so events scheduled during a round are never popped in it). *)
+Theorem c04_rounds_schedule_independent_partial : forall prog nq init script o s', (1 <= nq)%nat -> cwf false script = true ->
+  let s := e_run prog o (e_init_ctl nq init script) in
+  e_pc s = EDetermine -> step prog false TE s = Some s' ->
+  ((e_now s', e_sec s') = choice (queued s) /\ queued s' = queued s /\ e_ws s' = []) /\
+  (forall f, queued s <> [] ->
+     rounds (S f) prog (queued s) =
+     (fst (choice (queued s)), snd (choice (queued s)), map ev_id (members (queued s))) :: rounds f prog (next_pending prog (queued s))) /\
+  (forall P, Permutation (queued s) P ->
+     choice P = choice (queued s) /\ Permutation (members P) (members (queued s)) /\
+     Permutation (next_pending prog P) (next_pending prog (queued s))).
+Proof.
+  intros prog nq init script o s' Hn Hc s Hpc Hstep. split; [|split].
+  - exact (determine_matches_rounds prog nq init script o s' Hn Hc Hpc Hstep).
+  - intros f Hne. apply rounds_unfold. exact Hne.
+  - intros P HP. split; [symmetry; apply choice_perm, HP|]. split; [apply members_perm|apply next_perm]; apply Permutation_sym, HP.
+Qed.
+Print Assumptions c04_rounds_schedule_independent_partial.
 
 (** The phase guarantee over whole executions: whenever a secondary starts, every
     scheduled-and-unfinished primary of its instant was scheduled by a secondary
